@@ -66,9 +66,6 @@ func AStar(s, t graph.Node, g traverse.Graph, h Heuristic) (path Shortest, expan
 		for to.Next() {
 			v := to.Node()
 			vid := v.ID()
-			if visited.Has(vid) {
-				continue
-			}
 			j, ok := path.indexOf[vid]
 			if !ok {
 				j = path.add(v)
@@ -82,6 +79,9 @@ func AStar(s, t graph.Node, g traverse.Graph, h Heuristic) (path Shortest, expan
 				panic("path: A* negative edge weight")
 			}
 			g := u.gscore + w
+			if visited.Has(vid) && g >= path.dist[j] {
+				continue
+			}
 			if n, ok := open.node(vid); !ok {
 				path.set(j, g, i)
 				heap.Push(open, aStarNode{node: v, gscore: g, fscore: g + h(v, t)})
